@@ -21,7 +21,7 @@ def setup(ctx):
 
 
 def _n1(ctx):
-    return len(PAIRS1D) * (6 if ctx.tier == "quick" else 1200)
+    return len(PAIRS1D) * (30 if ctx.tier == "quick" else 1500)
 
 
 @group(quick=_n1, thorough=_n1, exhaustive=True)
@@ -30,6 +30,11 @@ def shift1d(ctx, rng, idx):
     n, k = PAIRS1D[idx % len(PAIRS1D)]
     iname = gen.ALL_INTEG[(idx // len(PAIRS1D)) % len(gen.ALL_INTEG)] if rng.random() < 0.7 else str(rng.choice(gen.ALL_INTEG))
     implicit = iname in gen.IMPLICIT
+    if rng.random() < 0.02:
+        # beyond the exhaustive sizes: a LARGE periodic mesh (several hundred unknowns; size-dependent code paths), random shift
+        n = int(rng.integers(90, 131)) if implicit else int(rng.integers(257, 501))
+        k = int(rng.integers(1, n))
+        ctx.ev("large-mesh")
     s = gen.scenario1d(rng, bc="per", meshkinds=["uni"], ncell=n, mach_max=1.5, ratio=5.0, dkind="smooth" if implicit else None)
     spec = gen.spec_from_scn(s)
     tw = gen.Spec(spec.mname, spec.mparams, spec.faces, spec.rname, spec.flux, spec.bcL, spec.bcR, [np.roll(p, k) for p in spec.prim], section=(lambda x: 1.0 + 0 * x) if spec.mname == "nozzle" else None)
@@ -75,7 +80,7 @@ def shift1d(ctx, rng, idx):
 
 
 def _n2(ctx):
-    return len(PAIRS2D) * (1 if ctx.tier == "quick" else 250)
+    return len(PAIRS2D) * (4 if ctx.tier == "quick" else 300)
 
 
 def roll2d(a, nx, ny, kx, ky):
@@ -131,7 +136,7 @@ MIXED = [(nx, ny, k, ax) for nx in range(1, 6) for ny in range(1, 6) for ax in (
 
 
 def _n3(ctx):
-    return len(MIXED) * (1 if ctx.tier == "quick" else 250)
+    return len(MIXED) * (4 if ctx.tier == "quick" else 300)
 
 
 @group(quick=_n3, thorough=_n3, exhaustive=True)
